@@ -126,10 +126,11 @@ impl StreamId {
     /// Fast integer parsing
     #[inline]
     fn parse_u64_fast(bytes: &[u8]) -> Option<u64> {
+        if bytes.is_empty() { return None; }
         let mut result = 0u64;
         for &b in bytes {
             if b < b'0' || b > b'9' { return None; }
-            result = result.wrapping_mul(10).wrapping_add((b - b'0') as u64);
+            result = result.checked_mul(10)?.checked_add((b - b'0') as u64)?;
         }
         Some(result)
     }
